@@ -194,3 +194,30 @@ package index
 //@   ensures[the_returned_id_is_the_id_of_the_field_in_the_registered_schema] err == nil ==> (s.mutable.present[uint32(id)] && cast(s.mutable.view[uint32(id)], "*metric.Schema") != nil && exists(i, 0, len(cast(s.mutable.view[uint32(id)], "*metric.Schema").Fields), cast(s.mutable.view[uint32(id)], "*metric.Schema").Fields[i].Name == f.Name && cast(s.mutable.view[uint32(id)], "*metric.Schema").Fields[i].ID == fID))
 //@   ensures[a_registered_schema_is_never_replaced] old(s.mutable.present[uint32(id)] && cast(s.mutable.view[uint32(id)], "*metric.Schema") != nil) ==> cast(s.mutable.view[uint32(id)], "*metric.Schema") == old(cast(s.mutable.view[uint32(id)], "*metric.Schema"))
 //@ end
+
+//@ # ---- index flush (C09): series ids of a metric are re-seeded after a reopen from the persisted metric -> series
+//@ # postings; the tags-hash -> series-id dictionary must therefore never be durable ahead of those postings (a crash in
+//@ # between would hand the id of a persisted series to a new one). Ordering under a logical clock -----------------
+//@ ghost field invertedIndex.flushedAt int
+//@ ghost field forwardIndex.flushedAt int
+//@ func invertedIndex.flush
+//@   assume
+//@   note the flush of one posting-list store is not verified here: it is stamped with the logical time of the call
+//@   modifies ii.flushedAt
+//@   ensures ii.flushedAt == now()
+//@ end
+//@ func forwardIndex.flush
+//@   assume
+//@   note as invertedIndex.flush
+//@   modifies fi.flushedAt
+//@   ensures fi.flushedAt == now()
+//@ end
+//@ func metricIndexDatabase.Flush
+//@   prop C09
+//@   clock
+//@   requires index.metricInverted != nil && index.inverted != nil && index.forward != nil && index.series != nil && index.metricInverted != index.inverted
+//@   modifies index.metricInverted.flushedAt, index.inverted.flushedAt, index.forward.flushedAt, index.series.flushedAt, index.flushing.val
+//@   ensures[the_series_postings_are_durable_before_the_series_dictionary] calls(index.series.Flush) != old(calls(index.series.Flush)) ==> (index.metricInverted.flushedAt > old(now()) && index.metricInverted.flushedAt < index.series.flushedAt)
+//@   ensures[the_series_dictionary_is_flushed_last] calls(index.series.Flush) != old(calls(index.series.Flush)) ==> (index.inverted.flushedAt > old(now()) && index.inverted.flushedAt < index.series.flushedAt && index.forward.flushedAt > old(now()) && index.forward.flushedAt < index.series.flushedAt)
+//@   ensures[one_flush_at_a_time] calls(index.series.Flush) == old(calls(index.series.Flush)) || calls(index.series.Flush) == old(calls(index.series.Flush)) + 1
+//@ end
